@@ -68,6 +68,7 @@ def evJson : Ev → Json
   | .lambdaScheduled i r => .arr [.str (S "LambdaFunctionScheduled"), .null, .obj [(S "input", i), (S "resource", .str r)]]
   | .lambdaSucceeded o => .arr [.str (S "LambdaFunctionSucceeded"), .null, .obj [(S "output", o)]]
   | .lambdaFailed e c => .arr [.str (S "LambdaFunctionFailed"), .null, .obj [(S "error", e), (S "cause", c)]]
+  | .lambdaTimedOut => .arr [.str (S "LambdaFunctionTimedOut"), .null, .obj [(S "error", .str (S "States.Timeout"))]]
   | .fanStarted ty l => .arr [.str (ty ++ S "StateStarted"), .null,
       (match l with | some n => .obj [(S "length", .num n)] | none => .obj [])]
   | .iterStarted n i => .arr [.str (S "MapIterationStarted"), .str n, .obj [(S "index", .num i)]]
